@@ -296,6 +296,8 @@ class World(object):
         from bacpypes.apdu import ConfirmedRequestPDU
         from bacpypes.pdu import Address
         n = self.nodes[r['src']]
+        if n['cfg'].get('raw'):
+            return          # a request of a raw peer is only the script of the server application's answer
         a = ConfirmedRequestPDU(r.get('service', 12))
         a.pduDestination = Address(r['dst'])
         if r.get('invoke') is not None:
@@ -894,6 +896,52 @@ def _hdr_from_octets(octets):
         return None
 
 
+def raw_hdr(octets):
+    """fixed APDU header read straight from the octets (ASHRAE 135 clause 20.1), independent of bacpypes' APCI.decode:
+    C12 judges what a peer announced by what it put on the wire, not by what the library made of it"""
+    h = {k: -1 for k in HDR_KEYS}
+    b = bytes(octets)
+    if not b:
+        return None
+    ty = b[0] >> 4
+    h['type'] = ty
+    try:
+        if ty == 0:
+            h['seg'], h['mor'], h['sa'] = (b[0] >> 3) & 1, (b[0] >> 2) & 1, (b[0] >> 1) & 1
+            h['maxsegs'], h['maxresp'], h['invoke'] = (b[1] >> 4) & 7, b[1] & 15, b[2]
+            if h['seg']:
+                h['seq'], h['win'], h['service'] = b[3], b[4], b[5]
+            else:
+                h['service'] = b[3]
+        elif ty == 1:
+            h['service'] = b[1]
+        elif ty == 2:
+            h['invoke'], h['service'] = b[1], b[2]
+        elif ty == 3:
+            h['seg'], h['mor'], h['invoke'] = (b[0] >> 3) & 1, (b[0] >> 2) & 1, b[1]
+            if h['seg']:
+                h['seq'], h['win'], h['service'] = b[2], b[3], b[4]
+            else:
+                h['service'] = b[2]
+        elif ty == 4:
+            h['nak'], h['srv'], h['invoke'], h['seq'], h['win'] = (b[0] >> 1) & 1, b[0] & 1, b[1], b[2], b[3]
+        elif ty == 5:
+            h['invoke'], h['service'] = b[1], b[2]
+        elif ty == 6:
+            h['invoke'], h['reason'] = b[1], b[2]
+        elif ty == 7:
+            h['srv'], h['invoke'], h['reason'] = b[0] & 1, b[1], b[2]
+        else:
+            return None
+    except IndexError:
+        return None
+    return h
+
+
+def _rx_hdr(tr, tag):
+    return raw_hdr(tr.frames[tag]['encoded']) if isinstance(tag, int) else raw_hdr(bytes.fromhex(tag[1]))
+
+
 def _decode_maxresp(code):
     return MAX_APDUS[code] if 0 <= code < 6 else None
 
@@ -906,20 +954,24 @@ def check_c12(tr):
     f = []
     last_req = {}        # (server, client, invoke) -> header of the request frame most recently delivered
     first_win = {}       # (receiver, sender, invoke, type) -> proposed window of the first segment delivered
+    last_ack_win = {}
     pos_of_rx = []
     for pos, e in enumerate(tr.events):
         if e[0] == 'rx':
             _, t, tag, src, dst = e
-            h = tr.frames[tag]['hdr'] if isinstance(tag, int) else _hdr_from_octets(bytes.fromhex(tag[1]))
+            h = _rx_hdr(tr, tag)
             if h is None:
                 continue
             if h['type'] == 0:
                 last_req[(dst, src, h['invoke'])] = h
             if h['type'] in (0, 3) and h['seg'] == 1 and h['seq'] == 0:
                 first_win[(dst, src, h['invoke'], h['type'])] = h['win']
+            if h['type'] == 4:
+                # (sender of the data, its peer, invoke, type of the data frames) -> window of the newest ack it has received
+                last_ack_win[(dst, src, h['invoke'], 0 if h['srv'] == 1 else 3)] = h['win']
         elif e[0] == 'tx':
             fr = tr.frames[e[2]]
-            h = fr['hdr']
+            h = raw_hdr(fr['encoded'])
             src, dst = fr['src'], fr['dst']
             c = _cfg(tr, src)
             if c is None or c.get('raw'):
@@ -947,6 +999,10 @@ def check_c12(tr):
                 f.append({'kind': 'apdu-longer-than-peer-max', 'frame': fr['idx'], 'role': frame_role(fr), 'enc_len': fr['enc_len'],
                           'limit': limit, 'payload_len': len(fr['data']), 'resp_dir': resp_dir, 'src': src, 'dst': dst,
                           'sender_iam_value': kk.get('maxApdu')})
+            if ty in (0, 3) and h['seg'] == 1 and h['seq'] != 0:
+                lw = last_ack_win.get((src, dst, h['invoke'], ty))
+                if lw is not None and h['win'] > lw:
+                    f.append({'kind': 'segment-window-above-latest-ack', 'frame': fr['idx'], 'win': h['win'], 'latest_ack_window': lw})
             if (ty in (0, 3) and h['seg'] == 1) or ty == 4:
                 if not (1 <= h['win'] <= 127):
                     f.append({'kind': 'window-out-of-range', 'frame': fr['idx'], 'role': frame_role(fr), 'win': h['win']})
@@ -974,7 +1030,7 @@ def check_c12(tr):
             if e[0] == 'tx' and e[2] == first_tx:
                 break
             if e[0] == 'rx':
-                h = tr.frames[e[2]]['hdr'] if isinstance(e[2], int) else _hdr_from_octets(bytes.fromhex(e[2][1]))
+                h = _rx_hdr(tr, e[2])
                 if h and h['type'] == 0 and e[3] == dst and e[4] == src and h['invoke'] == inv:
                     rq = h
         if rq is not None:
@@ -1172,11 +1228,50 @@ def gen_capability(rng, big=True):
     lim = {0: 3, 2: 2, 4: 4, 8: 8}.get(sms, 5)
     rlen = rng.choice([0, 1, rsz - 6, rsz - 4, rsz - 1, rsz, rsz + 1, 2 * rsz, 2 * rsz + 1, lim * rsz, lim * rsz + 1, rng.randrange(0, 3 * rsz)])
     lim2 = {0: 3, 2: 2, 4: 4, 8: 8}.get(cms, 5)
+    if cms in (16, 32) and rng.random() < 0.5:
+        lim2 = cms            # around the limit the request itself carries (code 4 / 5)
     plen = rng.choice([0, 1, cmax - 5, cmax - 3, cmax - 1, cmax, cmax + 1, 2 * cmax, 2 * cmax + 1, lim2 * cmax, lim2 * cmax + 1, rng.randrange(0, 3 * cmax)])
     if not big:
-        rlen, plen = min(rlen, 700), min(plen, 700)
+        rlen, plen = min(rlen, 700), min(plen, 900 if cmax == 50 else 700)
     req = {'t': 0, 'src': 1, 'dst': 2, 'len': max(0, rlen), 'service': 12, 'resp': ['complex', max(0, plen)], 'resp_delay': 0}
     return {'nodes': nodes, 'requests': [req]}
+
+
+def gen_scripted_windows(rng, server_side=None, wins=None):
+    """a raw peer (node 9) that acknowledges a segmented transfer of node 1 with a window that changes from ack to ack
+    (e.g. 4, 2, 1, 3), acknowledging a sequence number that is still inside the new window.  server_side: node 1 sends a
+    segmented *response* to a request of the raw peer; otherwise node 1 sends a segmented *request* to it."""
+    server_side = (rng.random() < 0.5) if server_side is None else server_side
+    wins = wins or [rng.choice([1, 2, 3, 4, 6, 8]) for _ in range(8)]
+    n = node_cfg(1, maxApdu=50, window=rng.choice([2, 4, 8]), retries=1, apduTimeout=1000, segTimeout=500, appTimeout=1000, maxSegs=0)
+    raw = node_cfg(9, raw=True)
+    L = 50 * rng.randrange(8, 20) + rng.randrange(0, 50)
+    inv = 5
+    if server_side:
+        req = {'t': 0, 'src': 9, 'dst': 1, 'len': 5, 'service': 12, 'resp': ['complex', L], 'resp_delay': 0}
+        first = {'t': 0, 'src': 9, 'dst': 1, 'frame': {'type': 0, 'seg': False, 'mor': False, 'sa': True, 'maxsegs': 0, 'maxresp': 0,
+                                                         'invoke': inv, 'service': 12, 'data': bytes(req_payload(0, 5)).hex()}}
+        spec = {'nodes': [n, raw], 'requests': [req], 'inject': [first]}
+    else:
+        req = {'t': 0, 'src': 1, 'dst': 9, 'len': L, 'service': 12, 'resp': ['simple'], 'resp_delay': 0, 'invoke': inv}
+        spec = {'nodes': [n, raw], 'requests': [req], 'inject': []}
+    acked_upto = -1      # frame index after which the last ack was injected
+    for rnd in range(len(wins)):
+        tr = run_scenario(spec)
+        burst = [f for f in tr.frames if f['src'] == 1 and f['hdr']['seg'] == 1 and f['idx'] > acked_upto]
+        if not burst:
+            break
+        burst = [f for f in burst if f['t'] == burst[0]['t']]      # before any retransmission
+        w = wins[rnd]
+        k = min(len(burst), w) - 1
+        if rng.random() < 0.3:
+            k = rng.randrange(0, k + 1)
+        ack = {'type': 4, 'nak': False, 'srv': not server_side, 'invoke': inv, 'seq': burst[k]['hdr']['seq'], 'win': w}
+        acked_upto = burst[-1]['idx']
+        spec['inject'] = spec['inject'] + [{'after': acked_upto, 'src': 9, 'dst': 1, 'frame': ack}]
+        if burst[k]['hdr']['mor'] == 0:
+            break
+    return spec
 
 
 def gen_forged_window(rng):
@@ -1412,3 +1507,21 @@ def known_replays(prop, checker, max_steps=8000):
             f['max_nsegs'] = max_transfer_segments(tr)
         out.extend(fs)
     return out
+
+
+def model_agrees(specs):
+    """for each scenario: does the Coq world model (the unchanged, proved-about semantics) produce exactly the trace the
+    implementation produces?  Used to decide whether a failing input is a *known* failure: only if the model fails on it in
+    the same way.  Fail-closed: if the model cannot be evaluated nothing agrees."""
+    import core
+    if not specs:
+        return []
+    cases = [scenario_case(sp, 'agree') for sp in specs]
+    try:
+        mism, errs = core.run_coq_cases('AGREE', COQ_IMPORTS, cases, shard=40)
+    except Exception:
+        return [False] * len(specs)
+    if errs:
+        return [False] * len(specs)
+    bad = set(id(c) for c in mism)
+    return [id(c) not in bad for c in cases]
